@@ -205,6 +205,28 @@ let () =
                 (match render w d with
                  | Some out -> Printf.sprintf "ok %d %s\t%s" (int_of_n cnt) (doc_to_string d) (hex_of_str (strip out))
                  | None -> "fuel"))
+  | "range" ->
+      (* W TAB A B NW (HEX WIDTH)*NW TREE -> ok RS RE OUTHEX | err | panic SITE | fuel *)
+      each_line (fun line ->
+          let t = toks_of line in
+          let w = n_of_int (int_of_string (next t)) in
+          let tab = n_of_int (int_of_string (next t)) in
+          let a = n_of_int (int_of_string (next t)) in
+          let b = n_of_int (int_of_string (next t)) in
+          let nw = int_of_string (next t) in
+          let table = List.init nw (fun _ -> let h = next t in let wd = int_of_string (next t) in (h, n_of_int wd)) in
+          let swidth (s : str) : n =
+            match List.assoc_opt (hex_of_str s) table with
+            | Some x -> x
+            | None -> n_of_int (List.length s) in
+          let tree = parse_tree t in
+          let cfg = { tab_spaces = tab; max_width = w; blank_lines_upper_bound = cfg_default.blank_lines_upper_bound;
+                      reorder_import_items = false } in
+          match format_range swidth cfg tree a b with
+          | ROk (rs, re, out) -> Printf.sprintf "ok %d %d %s" (int_of_n rs) (int_of_n re) (hex_of_str out)
+          | RErr -> "err"
+          | RPanic s -> "panic " ^ site_name s
+          | RFuel -> "fuel")
   | "cli" ->
       each_line (fun line ->
           let t = toks_of line in
